@@ -70,6 +70,7 @@ fact("np: hstack of scalars and arrays is 1-D, in argument order", lambda: list(
 fact("np: broadcasting (1,) with (N,)", lambda: (np.ones(1) * np.arange(3.0)).shape == (3,))
 fact("np: truth value of an array with more than one element raises", lambda: raises(ValueError, lambda: bool(np.ones(2) < 2)))
 fact("np: np.power(0.0, positive) = 0, np.power(-0.0, positive) = 0", lambda: np.power(0.0, 0.5) == 0 and np.power(-0.0, 0.5) == 0)
+fact("np: np.zeros_like(1-D) / np.zeros(n) are fresh 1-D arrays of zeros of that length", lambda: (lambda b: (np.zeros_like(b).shape == b.shape and not np.zeros_like(b).any() and np.zeros_like(b).base is None and np.zeros(3).shape == (3,)))(np.arange(4.0)))
 fact("np: np.full((n,), v) and np.empty((n,), float) have shape (n,)", lambda: np.full((3,), 2.0).shape == (3,) and np.empty((2,), float).shape == (2,))
 
 # ---- casadi ------------------------------------------------------------------------------------
